@@ -36,6 +36,11 @@ THEOREMS = [f"NauyacaVerif.C03.{t}" for t in (
     "connect_accept_iff", "connect_first_use", "connect_changed", "connect_unreadable", "connect_frame", "op_frame",
     "history_sound", "history_pinned", "redirect_every_hop", "redirect_follow_checked", "tofu_off",
     "first_use_race", "import_new", "import_conflict_skipped")]
+LEAN_TARGETS = LEAN_TARGETS + ["NauyacaVerif.Props.Tr.SessionSql"]
+TRANSLATED = ["getSingleTail", "uploadTail", "tofuVerify", "tofuTrust", "tofuRevoke", "tofuRevokeHost", "tofuClear"]
+THEOREMS = THEOREMS + [f"NauyacaVerif.Translated.{t}" for t in (
+    "getSingleTail_eq", "getSingleTail_off", "uploadTail_eq", "uploadTail_off", "tofuVerify_eq", "tofuTrust_eq", "tofuRevoke_eq",
+    "tofuRevokeHost_eq", "tofuClear_eq", "getSingleTail_sql")]
 EXTRACT: list[str] = []
 ASSUMPTIONS = [
     "parameters of the model (not verified): the TLS handshake itself (OpenSSL/ssl delivers the peer's DER certificate unchanged through getpeercert(binary_form=True)), X.509 parsing (cryptography.x509: a certificate either loads or raises), SHA-256 (hashlib), SQLite (one row per (hostname, port); a committed statement is durable)",
